@@ -7,6 +7,7 @@
 #  define RLBOX_SINGLE_THREADED_INVOCATIONS
 #endif
 #include <csignal>
+#include <new>
 #include <stdexcept>
 
 #include "rlbox.hpp"
@@ -19,11 +20,12 @@ enum Outcome
 {
   OK = 0,
   ABORT = 1, // RLBox dynamic_check failed (surfaced as exception)
-  TRAP = 2 // guest trapped
+  TRAP = 2, // guest trapped
+  ALLOCFAIL = 3 // host allocation failed (bad_alloc / length_error)
 };
 inline const char* oname(Outcome o)
 {
-  return o == OK ? "ok" : o == ABORT ? "abort" : "trap";
+  return o == OK ? "ok" : o == ABORT ? "abort" : o == TRAP ? "trap" : "allocfail";
 }
 
 inline thread_local std::string g_last_abort_msg;
@@ -40,6 +42,12 @@ inline Outcome attempt(F&& f)
   } catch (const GuestTrap& t) {
     g_last_abort_msg = t.why;
     return TRAP;
+  } catch (const std::bad_alloc& e) {
+    g_last_abort_msg = e.what();
+    return ALLOCFAIL;
+  } catch (const std::length_error& e) {
+    g_last_abort_msg = e.what();
+    return ALLOCFAIL;
   }
 }
 
